@@ -275,7 +275,11 @@ class SymbolGraph(metaclass=SingletonMeta):
     def get_wrapped_instance(self, instance: Any) -> Optional[WrappedInstance]:
         if isinstance(instance, WrappedInstance):
             return instance
-        return self._instance_index.get(id(instance), None)
+        wrapped_instance = self._instance_index.get(id(instance), None)
+        # the id of an instance that died and has not been swept yet may have been given to another object
+        if wrapped_instance is not None and wrapped_instance.instance is not instance:
+            return None
+        return wrapped_instance
 
     def ensure_wrapped_instance(self, instance: Any) -> WrappedInstance:
         """
